@@ -39,5 +39,9 @@ def run(ctx):
                                            Acts={"leaf", "op", "setrg", "retain", "detach", "ctx", "bw", "zero"}, InitLeaves=L1),
                             simulate="num=%d" % (300 if q else 20000), depth=80, seed=ctx.seed + 5, workers=1)
     AG.replay_all(ctx, rep, mx, table, c, KINDS, label="sim:")
+    # code -> spec: executions recorded from the real library (random programs over a wide slice of the API)
+    # are validated by TLC against the structural specification Tape.tla (TapeTrace.tla)
+    from .. import tape_common as TC
+    TC.tapes_part(ctx, rep, 60 if ctx.quick else 1500, False)
     rep.exhaustive = False
     return rep.finish()
